@@ -75,13 +75,62 @@ def cfg_ok(sf, it):
     return True
 
 
+def nested_items(sf, lo, hi):
+    """Items declared inside a function body st[lo:hi]: at depth 0, right after `{` (start), `;` or `}`, a token sequence
+    (after attributes) starting with `struct` / `enum` / `impl` / `fn` / `const` / `type` / `trait`."""
+    st, m = sf.st, sf.m
+    out = []
+    i = lo
+    at_start = True
+    while i < hi:
+        tx = st[i].text
+        if at_start:
+            k = i
+            while k < hi and st[k].text == '#' and st[k + 1].text == '[':
+                k = m[k + 1] + 1
+            if k < hi and st[k].kind == 'id' and st[k].text in ('struct', 'enum', 'impl', 'fn', 'trait'):
+                # end of this item: the matching brace of its first `{` outside (..)/[..], or a `;` before any `{`
+                j = k + 1
+                end = None
+                while j < hi:
+                    if st[j].text in ('(', '['):
+                        j = m[j] + 1
+                        continue
+                    if st[j].text == '{':
+                        end = m[j]
+                        break
+                    if st[j].text == ';':
+                        end = j
+                        break
+                    j += 1
+                if end is not None:
+                    try:
+                        out.extend(split_items(st, m, i, end + 1))
+                    except LexError:
+                        pass
+                    i = end + 1
+                    at_start = True
+                    continue
+        if tx in OPEN:
+            i = m[i] + 1
+            at_start = (tx == '{')
+            continue
+        at_start = tx == ';'
+        i += 1
+    return out
+
+
 def find_item(sf, lo, hi, sel):
     """sel: 'fn NAME' | 'struct NAME' | ... | 'impl <selector>'"""
     sel = sel.strip()
     try:
         items = [it for it in split_items(sf.st, sf.m, lo, hi) if cfg_ok(sf, it)]
     except LexError as e:
-        raise ExtractError('%s: %s' % (sf.rel, e))
+        # not an item list: a function body (statements). Items nested in a function body (`struct`/`impl`/`fn` declared
+        # between the statements) can still be addressed: they start at a statement boundary with an item keyword
+        items = [it for it in nested_items(sf, lo, hi) if cfg_ok(sf, it)]
+        if not items:
+            raise ExtractError('%s: %s' % (sf.rel, e))
     kw, _, rest = sel.partition(' ')
     found = []
     if kw == 'impl':
